@@ -323,6 +323,22 @@ func genFree(w *bufio.Writer, root string, seed uint64, n, ops int) {
 				}
 			})
 		}
+		// in some histories a goroutine does nothing but GC(0): readers lose and reload their segments all the time
+		if r.chance(35) {
+			spawn(func(g int, r *rng) {
+				for i := 0; i < ops*6; i++ {
+					rec.do(g, func() string { return "gc" }, func() string {
+						if err := l.GC(0); err != nil {
+							return errRes(err)
+						}
+						return "ok"
+					})
+					if r.chance(20) {
+						time.Sleep(time.Duration(r.intn(100)) * time.Microsecond)
+					}
+				}
+			})
+		}
 		done := make(chan struct{})
 		go func() { wg.Wait(); close(done) }()
 		select {
